@@ -65,6 +65,7 @@ def run(ctx):
         ctx.run_rule("R3-special-files", r3_special, F)
         ctx.run_rule("R4-error-conversion", r4_errors, F)
         ctx.run_rule("R6-field-coherence", r6_fields, F)
+        ctx.run_rule("R7-decisions", r7_decisions, F, table)
         ctx.run_rule("R5-flag-algebra", r5_flags, F, table)
     finally:
         vf.NOUPD[0] = False
@@ -235,6 +236,82 @@ def r2_creds(ctx, F):
     cd = [x for x in F.fns.values() if x.name == "drop" and (x.self_adt or "").endswith("CapFsetid")]
     ok = len(cd) == 1 and any(c.name == "raise" for c in live_calls(cd[0]))
     ctx.check("R2-credentials", "CapFsetid/drop", ok, "CapFsetid::drop no longer raises CAP_FSETID", loc=cd[0].loc() if cd else "")
+
+
+def decisions(F):
+    """{site: sorted list of 'fact' / '!fact'} in guard normal form for the passthrough's request-dependent decisions."""
+    got = {}
+
+    def facts_at(b, v, bb, keep=lambda t: True):
+        out = []
+        for (x, l, u) in v.guards(bb):
+            t = vf.render(x, b, short=True)
+            if t.startswith("discr(") or not keep(t):
+                continue
+            out.append(t if l != 0 else "!" + t)
+        return sorted(set(out))
+    # 1. where CAP_FSETID is dropped (the kernel asked to kill suid/sgid and killpriv_v2 was negotiated)
+    for k, b in sorted(F.fns.items()):
+        if not k.startswith("passthrough::") or "async_io" in k:
+            continue
+        for c in live_calls(b):
+            if c.name == "drop_cap_fsetid":
+                v = vf.VF(b, inline_depth=0)
+                owner = b.name if b.kind != "closure" else F.fns[b.owner].name + "/closure"
+                got.setdefault("killpriv/" + owner, []).append(facts_at(b, v, c.bb))
+    # 2. size probe vs value for the xattr getters
+    for nm in ("getxattr", "listxattr"):
+        b = c08.pfs_method(F, nm)
+        v = vf.VF(b, inline_depth=0)
+        for bb in sorted(b.reachable()):
+            for s in b.stmts(bb):
+                if s[0] == "=" and s[2][0] == "agg" and isinstance(s[2][1], dict) and s[2][1].get("adt", "").endswith("xattrReply"):
+                    got.setdefault("%s/%s" % (nm, s[2][1]["variant"]), []).append(facts_at(b, v, bb, lambda t: "size" in t and "libc::" not in t))
+    # 3. the permission emulation of access()
+    b = c08.pfs_method(F, "access")
+    v = vf.VF(b, inline_depth=0)
+    from rules import c18
+    for c in live_calls(b):
+        if c.name == "from_raw_os_error":
+            got.setdefault("access/" + vf.render(v.call_args(c)[0], b, short=True), []).append(facts_at(b, v, c.bb))
+            # the disjunctions (owner / group / other) are not dominating facts: record every path to the refusal
+            paths = set()
+            for pf in c18.path_facts(b, v, c.bb):
+                paths.add(" & ".join(sorted(set((t if l != 0 else "!" + t) for (t, l) in pf if not t.startswith("discr(")))))
+            got.setdefault("access-paths/" + vf.render(v.call_args(c)[0], b, short=True), []).append(sorted(paths))
+    # 4. the open options by cache policy
+    b = F.method(PFS, "do_open")
+    v = vf.VF(b, inline_depth=0)
+    r = v.ret()
+    opts = None
+    for x in vf.walk(r):
+        if x[0] == "A" and x[2] == "Ok" and x[3] and x[3][0][1][0] == "ARR" if False else False:
+            pass
+    t = vf.render(r, b, short=True, vfx=v)
+    m = re.search(r"Ok\(\(Some\(Atomic::fetch_add\(self\.next_handle, 1, Relaxed\)\), (.*), None\)\)\}$", t)
+    got["do_open/options"] = [[m.group(1)]] if m else [["?"]]
+    # 5. every xattr entry point is switched by the configuration
+    for nm in ("getxattr", "listxattr", "setxattr", "removexattr"):
+        b = c08.pfs_method(F, nm)
+        v = vf.VF(b, inline_depth=0)
+        for c in live_calls(b):
+            if (c.fn or "").startswith("libc::") and "xattr" in c.name:
+                got.setdefault("xattr-enabled/" + nm, []).append(facts_at(b, v, c.bb, lambda t: "cfg.xattr" in t))
+    return {k: sorted(v_) for k, v_ in got.items()}
+
+
+def r7_decisions(ctx, F, table):
+    """Request-dependent decisions of the passthrough, compared in guard normal form with the reviewed table: when CAP_FSETID is
+    dropped, size probe vs value for xattr getters, the owner/group/other permission emulation of access(), open options per cache
+    policy, the xattr configuration switch."""
+    got = decisions(F)
+    if os.environ.get("FBR_GEN"):
+        print("DECISIONS", json.dumps(got, indent=1))
+    want = table.get("decisions", {})
+    for k in sorted(set(got) | set(want)):
+        ctx.check("R7-decisions", k, got.get(k) == want.get(k),
+                  "%s is decided under %s; reviewed: %s" % (k, json.dumps(got.get(k))[:400], json.dumps(want.get(k))[:400]), loc="", detail=json.dumps(got.get(k))[:120])
+    ctx.floor("R7-decisions", 12)
 
 
 def r6_fields(ctx, F):
